@@ -13,7 +13,7 @@ import ast
 from sa import AnalysisError
 from sa.pattern import pmatch, pfind
 from sa.astutil import dotted, src, stmt_text, params, find_stmts, calls_in, method_name, walk_no_nested, const, deep_resolved
-from sa.guards import enclosing_conditions
+from sa.guards import enclosing_conditions, facts_at
 
 
 def check_cache_protocol(model, rep):
@@ -109,9 +109,15 @@ def check_system_cache(model, rep):
                 keyexpr = src(s.targets[0].slice)
                 keys = _resolve_key(f, s, keyexpr)
                 kind = _kind(f, s.value)
-                guard = tuple(sorted(t for t, v in conds.get(id(s), ()) if 'is_constant_matrix' in t or 'is_linear' in t) )
+                # what holds whenever the store is reached: enclosing tests AND earlier tests that left the function (early return)
+                held = set(conds.get(id(s), ()))
+                try:
+                    fa = facts_at(f.node, lambda x, s=s: x is s)
+                    held |= {(src(nd), v) for nd, v in fa.facts.values()}
+                except AnalysisError:
+                    pass
                 for k in keys:
-                    slots.setdefault(k, []).append((f, s, kind, tuple((t, v) for t, v in conds.get(id(s), ()) if 'is_constant_matrix' in t)))
+                    slots.setdefault(k, []).append((f, s, kind, tuple(sorted((t, v) for t, v in held if 'is_constant_matrix' in t))))
     if len(slots) < 4:
         raise AnalysisError(f'System.__cache: only {len(slots)} slots found')
     for k, writes in sorted(slots.items()):
